@@ -181,6 +181,8 @@ def generate():
         ("self.point = point", []),
         ("n = generator.order()", []),
         ("p = self.curve.p()", []),
+        ("if isinstance(point, ellipticcurve.Point) and point == ellipticcurve.INFINITY:\n"
+         "    raise InvalidPointError('The public point is the point at infinity.')", []),
         ("if __H0__ or __H1__:\n    raise InvalidPointError('The public point has x or y out of range.')",
          [(lambda s: s.test.values[0], "bool", "pubkey_x_out", ["point_x", "p"], ps, None),
           (lambda s: s.test.values[1], "bool", "pubkey_y_out", ["point_y", "p"], ps, None)]),
@@ -249,7 +251,9 @@ def generate():
         raise Unsupported("from_public_point: parameters/defaults changed")
     match("VerifyingKey.from_public_point", f.body, [(x, []) for x in [
         "self = cls(_error__please_use_generate=True)",
-        "if not isinstance(point, ellipticcurve.PointJacobi):\n    point = ellipticcurve.PointJacobi.from_affine(point)",
+        "if not isinstance(point, ellipticcurve.PointJacobi):\n    if point == ellipticcurve.INFINITY:\n"
+        "        raise MalformedPointError('Point at infinity is not a valid public point')\n"
+        "    point = ellipticcurve.PointJacobi.from_affine(point)",
         "self.curve = curve", "self.default_hashfunc = hashfunc",
         "try:\n    self.pubkey = ecdsa.Public_key(curve.generator, point, validate_point)\nexcept ecdsa.InvalidPointError:\n"
         "    raise MalformedPointError('Point does not lay on the curve')",
